@@ -100,6 +100,10 @@ class Prop(common.PropertyCheck):
         for i in range(self.budget(16, 160)):
             yield {'cont': 'sample', 'D': rng.randrange(3, 6), 'N': rng.choice([1, 5]), 'form': 'list', 'seed': rng.randrange(1 << 30),
                    'at': 'partial', 'ag': 'partial', 'res': 'partial', 'bad': None, 'dt': 'I', 'reuse': True}
+        # samples whose channels were selected with a stepped slice (every second channel), settings taken from the file
+        for i in range(self.budget(24, 240)):
+            yield {'cont': 'sample', 'D': rng.randrange(4, 8), 'N': rng.choice([1, 7]), 'form': ['none', 'list', 'scalar'][i % 3], 'seed': rng.randrange(1 << 30),
+                   'at': ['none', 'partial'][i % 2], 'ag': 'none', 'res': 'none', 'bad': None, 'dt': ['I', 'F'][(i // 2) % 2], 'presl': ['even', 'odd', 'third'][i % 3]}
         for _ in range(self.budget(1, 5)):
             yield {'k': 'big', 'n': (1 << 20) * rng.choice([1, 2]) + rng.randrange(1, 5000), 'seed': rng.randrange(1 << 30)}
 
@@ -151,7 +155,8 @@ class Prop(common.PropertyCheck):
             self._file_meta = {'ampType': fat, 'gain': fg, 'res': [bits(float(x)) for x in spec['ranges']]}
             if case.get('presl'):
                 d.amplification_type(names[1]); d.range(names[-1])            # by-name queries on the parent
-                sl = {'tail': slice(1, None), 'rev': slice(None, None, -1), 'mid': slice(1, D - 0 if D < 4 else D - 1)}[case['presl']]
+                sl = {'tail': slice(1, None), 'rev': slice(None, None, -1), 'mid': slice(1, D - 0 if D < 4 else D - 1),
+                      'even': slice(None, None, 2), 'odd': slice(1, None, 2), 'third': slice(D - 1, None, -3)}[case['presl']]
                 d = d[:, sl]
                 names = list(d.channels)
                 self._file_meta = {k: v[sl] for k, v in self._file_meta.items()}
@@ -228,7 +233,12 @@ class Prop(common.PropertyCheck):
     def run_impl(self, case):
         if case.get('k') == 'big':
             return self.run_big(case)
-        d, ch, at, ag, res, names = self.build(case)
+        try:
+            d, ch, at, ag, res, names = self.build(case)
+        except (IndexError, KeyError, TypeError, ValueError, AttributeError) as e:
+            if not case.get('presl'):
+                raise
+            return {'accessor_err': 'selecting the channels of the loaded sample raised %s: %s' % (type(e).__name__, str(e)[:80])}
         try:
             out = {'meta': meta_of(d), 'in': arr_bits(d), 'in_range': range_bits(d),
                    'args': {'channels': None if ch is None else ({'list': ch} if isinstance(ch, list) else {'scalar': ch}),
@@ -370,7 +380,7 @@ class Prop(common.PropertyCheck):
                         continue
                 # the float exponent a0/r*x carries ~2 roundings, amplified by ln(10)*|exponent| in the result
                 expo = abs(law[1] / law[3] * x) if law[0] == 'log' else 0.0
-                if ulps(want, y) > 4 and abs(want - y) > 1e-15 * (10 + 10 * expo) * abs(want):
+                if ulps(want, y) > 4 and common.far(want, y, 1e-15 * (10 + 10 * expo) * abs(want)):
                     return 'channel %d event %d: got %r, the %s law gives %r (params %s)' % (c, r, y, law[0], want, law[1:])
         if len(impl['out']) != len(impl['in']):
             return 'number of events changed'
